@@ -81,7 +81,15 @@ def main(argv=None):
         ec = S.default_ec(v)
         names = [s for s in sorted(lib.SEGMENTS) if S.ok_segment(lib, s) and s != 'MSH']
         rng.shuffle(names)
+        ec_default = ec
         for sname in names[:n_seg] + ['ZXX']:
+            # a third of the segments are written with another set of delimiters, given explicitly to every call
+            if rng.random() < 0.33:
+                ec = dict(ec_default)
+                ec.update({'FIELD': '!', 'COMPONENT': '@', 'SUBCOMPONENT': '$', 'REPETITION': '%'})
+                dist['custom_delimiter_segments'] = dist.get('custom_delimiter_segments', 0) + 1
+            else:
+                ec = ec_default
             for _ in range(n_lines):
                 text = canonical_line(rng, lib, ec, sname if sname != 'ZXX' else None)
                 if not is_canonical_domain(text, ec):
@@ -138,6 +146,7 @@ def main(argv=None):
                 text = S.gen_segment_line(rng, lib, ec, sname if sname != 'ZXX' else None, messy=True)
                 cases.append(S.case_of(text, v, S.TOLERANT, ec))
                 dist['messy_segments'] += 1
+        ec = ec_default
     run.log('segment level: %d cases, %d failures' % (len(cases), len(run.failures)))
     # ---- whole messages, both group modes
     nmsg = 12 if not run.thorough else 80
